@@ -380,7 +380,7 @@ def run_shard(spec, acc):
                 check_case(w["seed"], acc)
         return
     tier, k, n = spec["tier"], spec["shard"], spec["nshards"]
-    total = 3000 if tier == "quick" else 120000
+    total = 6000 if tier == "quick" else 120000
     rng = random.Random("C17/%s/%s" % (spec["seed"], k))
     for j in range(total // n):
         w = check_case(rng.randrange(1 << 48), acc)
